@@ -129,6 +129,19 @@ Definition run_hist (sh : shape) (w : world) (modes : nat -> imode) (h : list ev
                let '(s', o) := step_ev sh w modes e (fst acc) in (s', snd acc ++ [(e, o)]))
             h (s, []).
 
+(* ---- several daemons in one process: every event names its daemon; each daemon has its own tables,
+   creator log and trace (instances are per daemon, never per process) ---- *)
+Definition mstate := nat -> st * trace.
+Definition mstate0 : mstate := fun _ => (st0, []).
+Definition mstep (sh : shape) (w : nat -> world) (modes : nat -> imode) (m : mstate) (de : nat * event) : mstate :=
+  let d := fst de in
+  let r := step_ev sh (w d) modes (snd de) (fst (m d)) in
+  fun x => if Nat.eqb x d then (fst r, snd (m d) ++ [(snd de, snd r)]) else m x.
+Definition mrun (sh : shape) (w : nat -> world) (modes : nat -> imode) (h : list (nat * event)) : mstate :=
+  fold_left (mstep sh w modes) h mstate0.
+Definition proj (d : nat) (h : list (nat * event)) : list event :=
+  map snd (filter (fun x => Nat.eqb (fst x) d) h).
+
 (* the (state, trace) pairs the daemon can be in after some history *)
 Inductive reach (sh : shape) (w : world) (modes : nat -> imode) : st -> trace -> Prop :=
 | reach0 : reach sh w modes st0 []
